@@ -3,7 +3,9 @@ From CV Require Import Base.Tac Model.C09_Gibbs Proofs.C09_Wiring.
 
 Section LegacySweep.
 Context {V L R : Type}.
+Variable condf : list V -> nat -> V -> L.
 Variable joint : list V -> L.
+Hypothesis c01_step : forall cur i x, nth_error cur i = Some x -> forall v, condf cur i v = joint (upd cur i v).
 Variable ltrans : nat -> (V -> L) -> V -> R -> V.
 
 Lemma map_fst_flat_single (l : list nat) :
@@ -15,29 +17,30 @@ Proof.
 Qed.
 
 Theorem legacy_sweep_spec (rs : nat -> nat -> R) (cur : list V) e :
-  In e (snd (lsweep joint ltrans rs cur)) ->
+  In e (snd (lsweep condf ltrans rs cur)) ->
   let i := e_blk e in
-  let new := fst (lsweep joint ltrans rs cur) in
+  let new := fst (lsweep condf ltrans rs cur) in
   i < length cur /\ e_j e = 0 /\
   e_cur e = firstn i new ++ skipn i cur /\
   (forall v, e_tgt e v = joint (firstn i new ++ v :: skipn (S i) cur)) /\
   nth_error cur i = Some (e_s e) /\
   nth_error new i = Some (ltrans i (e_tgt e) (e_s e) (rs i 0)) /\
-  map (@e_blk V L V) (snd (lsweep joint ltrans rs cur)) = seq 0 (length cur).
+  map (@e_blk V L V) (snd (lsweep condf ltrans rs cur)) = seq 0 (length cur).
 Proof.
   unfold lsweep. cbn [fst snd]. intros He. cbn zeta.
   set (st := mkG cur cur) in *.
   assert (Hwf : length (g_ss st) = length (g_cur st)) by reflexivity.
-  pose proof (sweep_target_is_current_conditional joint (fun v : V => v) (fun _ _ s => s) ltrans (fun _ => 1) rs st Hwf e He) as T.
-  cbn zeta in T. destruct T as (T1 & T2 & T3 & T4).
-  destruct (sweep_k_transitions joint (fun v : V => v) (fun _ _ s => s) ltrans (fun _ => 1) rs st Hwf e He) as (s & Hs & Hj & Hes).
+  pose proof (sweep_target_is_current_conditional condf (fun v : V => v) (fun _ _ s => s) ltrans (fun _ => 1) rs st Hwf e He) as T.
+  cbn zeta in T. destruct T as (T1 & T2 & T3).
+  pose proof (sweep_target_is_joint condf (fun v : V => v) (fun _ _ s => s) ltrans (fun _ => 1) rs st Hwf joint c01_step e He) as T4.
+  destruct (sweep_k_transitions condf (fun v : V => v) (fun _ _ s => s) ltrans (fun _ => 1) rs st Hwf e He) as (s & Hs & Hj & Hes).
   cbn zeta in *. assert (Ej : e_j e = 0) by lia. rewrite Ej in Hes. cbn [iter_trans] in Hes. subst s.
-  pose proof (sweep_result joint (fun v : V => v) (fun _ _ s => s) ltrans (fun _ => 1) rs st Hwf (e_blk e) (e_s e) Hs) as Rz.
+  pose proof (sweep_result condf (fun v : V => v) (fun _ _ s => s) ltrans (fun _ => 1) rs st Hwf (e_blk e) (e_s e) Hs) as Rz.
   cbn zeta in Rz. destruct Rz as [_ R2]. cbn [iter_trans] in R2.
   unfold new_cur in *. cbn [g_cur st] in *.
   repeat split; auto.
   - rewrite T3, T2. exact R2.
-  - pose proof (sweep_all_visited_once joint (fun v : V => v) (fun _ _ s => s) ltrans (fun _ => 1) rs st Hwf) as A.
+  - pose proof (sweep_all_visited_once condf (fun v : V => v) (fun _ _ s => s) ltrans (fun _ => 1) rs st Hwf) as A.
     apply (f_equal (map fst)) in A. rewrite map_map in A. cbn [fst] in A.
     rewrite map_fst_flat_single in A. exact A.
 Qed.
